@@ -139,6 +139,30 @@ def make_policy(case, iv):
     return pol
 
 
+def _string(x):
+    b = x.encode('utf-8')
+    return struct.pack('>H', len(b)) + b
+
+
+def _short_bytes(b):
+    return struct.pack('>H', len(b)) + b
+
+
+def _type(t):
+    """[option] of the native protocol for a cqltypes class (what the server puts into result metadata)"""
+    from cassandra.protocol import ResultMessage
+    from cassandra import cqltypes as T
+    codes = dict((v, k) for k, v in ResultMessage.type_codes.items())
+    if t in codes:
+        return struct.pack('>H', codes[t])
+    if issubclass(t, T.DateType):
+        return struct.pack('>H', 0x000B)
+    for base in (T.ListType, T.SetType, T.MapType):
+        if issubclass(t, base):
+            return struct.pack('>H', codes[base]) + b''.join(_type(x) for x in t.subtypes)
+    raise ValueError(t)
+
+
 def run_impl(case):
     """case: {'pv', 'iv': hex, 'iv2': hex, 'cols': [{'type', 'key': hex|None}], 'rows': [{'vals': [...], 'foreign': bool}]}
     -> dict with per-row wire cells, the decode outcome, and everything the oracle needs."""
@@ -162,8 +186,25 @@ def run_impl(case):
             return res
         res['wire'].append([None if c is None else bytes(c) for c in bs.values])
         res['ser'].append([None if v is None else bytes(types[i].serialize(v, pv)) for i, v in enumerate(vals)])
-    # the server echoes: a ROWS result with NO_METADATA (metadata comes from the prepared statement, as on v4+)
-    body = struct.pack('>iii', 2, 0x0004, len(meta)) + struct.pack('>i', len(res['wire']))
+    ch = case.get('changed')
+    frame_meta = meta
+    if ch:
+        # v5 Metadata_changed: after ALTER TABLE ADD the EXECUTE response carries the NEW column list (one plain column more,
+        # inserted at ch['pos']) while the prepared statement still caches the OLD result metadata
+        nt = cqltype(ch['col']['type'])
+        frame_meta = meta[:ch['pos']] + [ColumnMetadata('ks', 'tb', 'added', nt)] + meta[ch['pos']:]
+        types = types[:ch['pos']] + [nt] + types[ch['pos']:]
+        for r, v in enumerate(ch['vals']):
+            cell = None if v is None else bytes(nt.serialize(pyval(v), pv))
+            res['wire'][r] = res['wire'][r][:ch['pos']] + [cell] + res['wire'][r][ch['pos']:]
+            res['ser'][r] = res['ser'][r][:ch['pos']] + [cell] + res['ser'][r][ch['pos']:]
+        body = struct.pack('>iii', 2, 0x0001 | 0x0008, len(frame_meta)) + _short_bytes(b'new-metadata-id') + _string('ks') + _string('tb')
+        for m in frame_meta:
+            body += _string(m.name) + _type(m.type)
+        body += struct.pack('>i', len(res['wire']))
+    else:
+        # the server echoes: a ROWS result with NO_METADATA (metadata comes from the prepared statement, as on v4+)
+        body = struct.pack('>iii', 2, 0x0004, len(meta)) + struct.pack('>i', len(res['wire']))
     for w in res['wire']:
         for c in w:
             body += struct.pack('>i', -1) if c is None else struct.pack('>i', len(c)) + c
